@@ -353,7 +353,16 @@ def _run_pretty(pretty_fn, value, ctx, trailing_comment=None):
         return _pretty_recursion(value)
 
     ctx.start_visit(value)
+    try:
+        return _run_pretty_visited(pretty_fn, value, ctx, trailing_comment)
+    finally:
+        # Whatever happens while printing value (an exception raised
+        # here may be caught by an enclosing printer's handler), value
+        # is no longer being visited.
+        ctx.end_visit(value)
 
+
+def _run_pretty_visited(pretty_fn, value, ctx, trailing_comment):
     if trailing_comment:
         try:
             doc = pretty_fn(
@@ -402,8 +411,6 @@ def _run_pretty(pretty_fn, value, ctx, trailing_comment=None):
             'an instance of str or Doc. {} returned '
             '{} instead.'.format(fnname, repr(doc))
         )
-
-    ctx.end_visit(value)
 
     return doc
 
